@@ -57,14 +57,26 @@ if MODEL:
             return ("num",)
         return tuple(sorted(n for n in ca._consts(e) if not n.startswith("opti")))[:0] + (len(ca._consts(e)) > 0,)
 
-    _EQ_TIMEOUT = 20000
+    _EQ_TIMEOUT = 8000
 
     def equal_terms(a, b):
         """True / False(model) / None(unknown) : a == b under the current path condition"""
         if ca._same(a, b):
             return True, None
         ta, tb = ca.tz(a), ca.tz(b)
-        d = z3.simplify(ta - tb, som=True)
+        c = ctx()
+        if c.subst:
+            ta, tb = z3.simplify(c.normalize(ta)), z3.simplify(c.normalize(tb))
+            if ta.eq(tb):
+                return True, None
+        if not ta.eq(tb) and _implied_index_equalities(c, ta, tb):
+            ta, tb = z3.simplify(c.normalize(ta)), z3.simplify(c.normalize(tb))
+            if ta.eq(tb):
+                return True, None
+        if len(ta.sexpr()) < 4000:
+            d = z3.simplify(ta - tb, som=True)
+        else:
+            d = z3.simplify(ta - tb)
         if z3.is_rational_value(d) and d.numerator_as_long() == 0:
             return True, None
         c = ctx()
@@ -80,6 +92,67 @@ if MODEL:
             return None, None
         finally:
             c.solver.pop()
+
+    def _int_args(t, limit=4000):
+        """integer-sorted argument terms of applications and integer variables inside t"""
+        args, ivars, stack, seen = {}, {}, [t], set()
+        while stack and len(seen) < limit:
+            x = stack.pop()
+            if x.get_id() in seen:
+                continue
+            seen.add(x.get_id())
+            if x.sort() == z3.IntSort():
+                args[x.get_id()] = x
+                for v in _int_vars(x):
+                    ivars[v.get_id()] = v
+                continue
+            stack.extend(x.children())
+        return list(args.values()), list(ivars.values())
+
+    def _int_vars(t):
+        out, stack, seen = [], [t], set()
+        while stack:
+            x = stack.pop()
+            if x.get_id() in seen:
+                continue
+            seen.add(x.get_id())
+            if z3.is_const(x) and x.decl().kind() == z3.Z3_OP_UNINTERPRETED:
+                out.append(x)
+            stack.extend(x.children())
+        return out
+
+    def _implied_index_equalities(c, ta, tb):
+        """integer index terms that the path condition pins to an index term of the other side
+        (j == k from k <= j < k+1;  (2k+1) div 2 == k) are rewritten, so that the big real-valued
+        terms become syntactically equal and never reach the nonlinear solver"""
+        aa, _ = _int_args(ta)
+        ab, _ = _int_args(tb)
+        ids_a = {x.get_id() for x in aa}
+        ids_b = {x.get_id() for x in ab}
+        learnt = False
+        for side, other in ((aa, ab), (ab, aa)):
+            oid = {x.get_id() for x in other}
+            for a in side:
+                if a.get_id() in oid or z3.is_int_value(a):
+                    continue
+                cands = [b for b in other if b.get_id() != a.get_id()]
+                # also try the variables occurring in a itself (e.g. (2k+1) div 2 == k) and 0
+                cands += [v for v in _int_vars(a) if not v.eq(a)] + [z3.IntVal(0)]
+                for cand in cands:
+                    if len(cand.sexpr()) > len(a.sexpr()) and a.get_id() in ids_a and cand.get_id() in ids_a:
+                        continue
+                    c.solver.push()
+                    try:
+                        c.solver.set("timeout", 3000)
+                        c.solver.add(a != cand)
+                        r = c.solver.check()
+                    finally:
+                        c.solver.pop()
+                    if r == z3.unsat:
+                        c.subst.append((a, cand))
+                        learnt = True
+                        break
+        return learnt
 
     def quick_differs(a, b, consts_cache={}):
         """cheap necessary condition for equality: same set of uninterpreted symbols after
@@ -116,9 +189,12 @@ if MODEL:
                                          "expected row %s (%s): no emitted row is identically equal; expected residual %s" % (_tagstr(tag), kind, ca._short(r))))
                 missing.append(tag)
         extra = [emitted[i] for i in range(len(emitted)) if not used[i]]
+        any_unknown = any(o.status == "unknown" for o in c.obligations[-len(expected):]) if expected else False
         if prove_extra:
             oname = "%s:frame:nothing-else" % name
-            if extra:
+            if extra and any_unknown:
+                c.obligations.append(_ob(oname, "unknown", 0.0, "some expected rows are undecided, so the unmatched emitted rows cannot be judged"))
+            elif extra:
                 c.obligations.append(_ob(oname, "refuted", 0.0, "emitted rows that no declaration accounts for: " +
                                          "; ".join("%s %s" % (k, ca._short(r)) for k, r, _ in extra[:4]) + (" ..." if len(extra) > 4 else "")))
             else:
